@@ -244,7 +244,9 @@ def case_dmrg(ctx, i):
         else:
             ctx.violation('%s:raises-%s' % (engine, type(e).__name__), tb[-700:], case)
         return
-    mixer_on_at_end = eng.mixer is not None
+    # (the mixer object is dropped at the end of the sweep in which its life time ends: what counts is whether the last
+    #  update still used one; a chi_list step re-activates the mixer, so 'disable_after' alone does not tell)
+    mixer_on_at_end = eng.mixer is not None or bool(upd and upd[-1][5])
     tag = '%s:mixer=%s' % (engine, mixer)
     if mixer_on_at_end:
         ctx.count('mixer_on_at_end')
@@ -285,6 +287,13 @@ def case_dmrg(ctx, i):
         if not (abs(nrm - 1) <= 1e-2):
             return
     v = v / nrm
+    # Schmidt values of the returned state: trunc_params['svd_min'] (1e-12 here) discards smaller ones in every update, and form
+    # conversions (get_B(form='A'), a fresh MPOEnvironment) divide by them
+    s_min = min(float(np.min(psi.get_SL(k))) for k in range(1, L))
+    zero_schmidt = not (s_min >= 1e-13)
+    if zero_schmidt:
+        ctx.violation('DMRG%s:returned-state-has-vanishing-Schmidt-values' % late, '%s: smallest Schmidt value %r (svd_min 1e-12): '
+                      'conversions between canonical forms of the returned state divide by zero' % (tag, s_min), case)
     outside = np.ones(len(v), dtype=bool)
     outside[idx] = False
     if not (np.linalg.norm(v[outside]) <= 1e-8):
@@ -324,6 +333,8 @@ def case_dmrg(ctx, i):
             ctx.count('convergence.not_nn_connected')
     # --- effective Hamiltonian in a fresh environment of the returned state: to_matrix vs matvec vs dense <H>
     try:
+        if zero_schmidt:
+            raise _Skip()  # (reported above; a fresh environment is undefined for such a state)
         env = MPOEnvironment(psi, M.H_MPO, psi)
         EffH = TwoSiteH if rng.random() < 0.5 else OneSiteH
         i0 = int(rng.integers(0, L - 1))
@@ -350,6 +361,8 @@ def case_dmrg(ctx, i):
         e_loc = float(np.real(np.vdot(thc.to_ndarray(), hvc.to_ndarray())))
         if not (abs(e_loc - e_dense * nrm**2) <= 1e-7 * scale) and nt < 1e-9:
             ctx.violation('%s:local-energy-differs-from-<H>' % EffH.__name__, '<theta|Heff|theta> = %r, <H> = %r' % (e_loc, e_dense), case)
+    except _Skip:
+        ctx.count('effH.skipped_vanishing_schmidt_values')
     except Exception as e:
         tb = traceback.format_exc()
         if '/tenpy/' in tb:
